@@ -20,7 +20,7 @@ SPEC = {
         {"kind": "EXPL", "type": "(N * N)", "eval": "check_expl", "per_shard": 4000},
     ],
     "classes": {1: "upload-marker-not-a-number", 2: "upload-index-out-of-range", 3: "parser-stack-overflow-deep-nesting"},
-    "n_quick": 300, "n_thorough": 6000,
+    "n_quick": 300, "n_thorough": 1200,
     "level": "other",
     "explanation": "partial by design: Coq proofs (no panic outside the stated conditions, for all inputs) for the modelled decoders with unwrap/index/arithmetic on client data; every other entry point and the parser's stack depth are covered by a crash-oracle exploration only (catch_unwind, child process with time budget)",
     "what_violation": "a client-controlled input makes the library panic / overflow the stack / stop answering",
